@@ -1422,7 +1422,7 @@ func main() {
 		runCorpus(o.Corpus, tbl, sum)
 	}
 
-	total := o.Count(700, 60000)
+	total := o.Count(700, 20000)
 	for n := 0; n < total; n++ {
 		cfg := cfgs[r.Pick(len(cfgs))]
 		kind := []string{"direct", "direct", "direct", "transform", "concurrent", "ancestor"}[r.Pick(6)]
